@@ -1531,7 +1531,9 @@ def run_combo(cb, lc=None, ticket_key=b"\x07" * 32):
             if not both_done:
                 ctrl = get_control()
                 if ctrl["ok"]:
-                    R.violations.append((label + ":handshake-failed",
+                    kind = "handshake-failed" if i == 0 else ("resuming-handshake-failed:" + str(cb["resume"]) +
+                                                              ("+hrr" if o["wire"].get("hrr") else ""))
+                    R.violations.append((label + ":" + kind,
                                          "expected-compatible pair did not complete (connection %d): tlslite %s %s, OpenSSL %s %s; "
                                          "OpenSSL<->OpenSSL control of the same combination completes"
                                          % (i + 1, o["tl_state"], o["tl_exc"], o["os_state"], o["os_exc"])))
